@@ -944,6 +944,10 @@ public:
                     d["const"] = true;
                 if (VD->isStaticLocal())
                     d["static"] = true;
+                if (VD->isCXXForRangeDecl())
+                    d["rangevar"] = true;
+                if (VD->isImplicit())
+                    d["implicit"] = true;
                 if (VD->getInit()) {
                     d["init"] = emitNode(F, VD->getInit());
                     switch (VD->getInitStyle()) {
@@ -1000,7 +1004,9 @@ public:
                 Expr::EvalResult R;
                 if (V->EvaluateAsInt(R, Ctx))
                     o["v"] = (int64_t)R.Val.getInt().getExtValue();
-                const Expr *SV = stripExpr(V);
+                const Expr *SV = V->IgnoreImplicit()->IgnoreParenImpCasts();
+                if (const auto *CE2 = dyn_cast<ConstantExpr>(SV))
+                    SV = CE2->getSubExpr()->IgnoreParenImpCasts();
                 if (const auto *DR = dyn_cast_or_null<DeclRefExpr>(SV))
                     if (const auto *EC = dyn_cast<EnumConstantDecl>(DR->getDecl()))
                         o["name"] = EC->getQualifiedNameAsString();
